@@ -76,6 +76,10 @@ CLAIMS["C08"] = ("dkgnet", "stateful property-based testing (rapid state machine
     "Histories of operator commands, valid and invalid proposals and real executions on five real processes; after each step every node's current/finished records are compared with the previous snapshot under the harness's own legal-transition relation and preservation invariants.",
     "Real-time executions limit depth (epoch 2-3); TimedOut not generated.", "DESIGN.md §3 C08")
 
+CLAIMS["C07"] = ("beaconnet", "property-based testing (rapid) of generated reshare shapes and hand-over schedules on a running network of real handlers; oracles = chain-identity comparison, C01/C02/C03 invariants across the transition, continuity vs. the fake clock",
+    "The harness synthesises the next epoch (same secret, new polynomial) and applies it to real running handlers at generated instants; identity, continuity across the transition round and the exclusive validity of new shares are checked on recorded artefacts.",
+    "Core's own orchestration code is re-implemented by the harness; real-DKG identity is covered by C06.", "DESIGN.md §3 C07")
+
 PENDING_REASON = "check not built yet in this session (planned, see DESIGN.md §3); not claimed until it exists and is silent on the unchanged tree"
 
 
